@@ -184,6 +184,33 @@ def run(res, tier):
                 res.violate("C11/end-state-differs/%s/%s" % (kb, "impedance" if imp != "none" else "no-impedance"), case,
                             "final phase space differs from the uninterrupted run by %.3g > bound %.3g (charge drift %.3g)" % (dev, bound, qq), replay=rp)
 
+    # (b2) the older file layout [records][n][n] (no bunch dimension): "starting from any chosen record loads exactly the stored values"
+    import struct
+    for n in ns:
+        old3 = os.path.join(wd, "old_layout_%d.h5" % n)
+        vals = blob(n)
+        pl.write_start_h5_rank3(old3, n, vals)
+        for sr in (None, 0, 1, 2, -1, -3):
+            a = base(n, "none") + ["-i", old3, "-T", 0.125, "-n", 1, "--SavePhaseSpace", 1, "--RenormalizeCharge", -1] + ([] if sr is None else ["--InitialDistStep", sr])
+            r = pl.run(exe, a, wd, out="old3_%d_%s.h5" % (n, sr))
+            case = "older layout [3][%d][%d], start record %s" % (n, n, sr)
+            d = pl.h5(r["h5"]) if r["rc"] == 0 and os.path.exists(r["h5"]) else None
+            res.eval(case, pl.chash(case, r["rc"]), trivial=False)
+            if d is None or "error" in d:
+                res.violate("C11/older-layout/run-failed", case, "rc=%s %s" % (r["rc"], r["log"][-200:]), replay=dict(cmd=r["cmd"]))
+                continue
+            rec = (2 if sr is None else sr % 3)
+            want = [struct.unpack("f", struct.pack("f", struct.unpack("f", struct.pack("f", x))[0] * (1.0 + 0.25 * rec)))[0] for x in vals]
+            got, _h = last_ps(d, 0)
+            if len(got) != len(want) or any(struct.pack("f", g) != struct.pack("f", w) for g, w in zip(got, want)):
+                nbad = sum(1 for g, w in zip(got, want) if struct.pack("f", g) != struct.pack("f", w))
+                res.violate("C11/older-layout/loaded-state-differs", case, "the first record of the run differs from record %d of the file in %d of %d cells" % (rec, nbad, len(want)), replay=dict(cmd=r["cmd"]))
+            for ext in ("", ".cfg", ".log"):
+                try:
+                    os.remove(r["h5"] + ext)
+                except OSError:
+                    pass
+
     # (c) files that cannot be used as a start must be refused with a message, nothing simulated
     good = os.path.join(wd, "good.h5")
     pl.run(exe, base(16, "none") + ["-T", 0.25, "-n", 1, "--SavePhaseSpace", 1], wd, out="good.h5")
